@@ -172,6 +172,38 @@ def model_effects(prog):
             'terminated': terminated}
 
 
+def warm_up(rec, prog, actions, classes=None):
+    """History on the same recorder before the measured run: a small operation using the measured program's output
+    aliases is recorded ('record') and, for 'play', replayed. Returns nothing; must leave nothing behind."""
+    if not actions:
+        return
+    outs = [dict(d) for d in prog.get('outs', [])] or [{'alias': 'out', 'kind': 'instance', 'handler': 'none'}]
+    for d in outs:
+        d['handler'] = 'none'
+    warm = PS.assign_sids({'klass': 'instance', 'ins': [], 'outs': outs,
+                           'steps': [{'t': 'out', 'i': i % len(outs), 'a': 'warm-up', 'kw': [], 'beh': 'ret',
+                                      'ret': None} for i in range(len(outs) + 1)],
+                           'ending': 'return', 'result': 'warm', 'extractor': 'none'})
+    Ww = PS.World('LIVE')
+    cls = PS.build_class(warm, rec, Ww)
+    if classes is not None:
+        classes.append(cls)
+    was_enabled = rec.recording_enabled
+    rec.enable_recording()
+    try:
+        out = PS.execute(cls, warm)
+        if out[0] != 'ret' or not Ww.recording_ids:
+            raise RuntimeError('warm-up operation failed: %r' % (out,))
+        if 'play' in actions:
+            Ww.world, Ww.journal, Ww.sites = 'REPLAY', [], {}
+            rec.play(Ww.recording_ids[-1], lambda recording: PS.execute(cls, warm))
+    finally:
+        if not was_enabled:
+            rec.disable_recording()
+    if classes is None:
+        PS.forget_class(cls)
+
+
 class FaultRun(object):
     """One observed run: twin first, then the decorated program against a spy cassette."""
 
@@ -194,6 +226,13 @@ class FaultRun(object):
             self.rec.enable_recording()
         self.W = PS.World('LIVE')
         self.cls = PS.build_class(prog, self.rec, self.W)
+        if flags.get('prior'):
+            # the recorder has a history: an earlier operation was recorded (and replayed) on it
+            fail_save, self.cas.fail_save = self.cas.fail_save, False
+            warm_up(self.rec, prog, flags['prior'])
+            self.cas.fail_save = fail_save
+            del self.cas.spy_log[:]
+            del self.cas.spy_save_times[:]
         self.before = self.zoo.snapshot(self.cas)
         import time
         import datetime
